@@ -187,6 +187,18 @@ CLAIMED["C10"] = {
     "ref": "DESIGN.md section 5 (C10)",
 }
 
+CLAIMED["C11"] = {
+    "text": "Proved / decided exhaustively: _check_conn_kind (11 documented kinds accepted, any other string -> "
+            "ValueError, incl. a symbolic non-member) and the kind table (NetConnections.__init__ interpreted from the "
+            "real source: each kind reaches exactly its documented (family, type) pairs, each /proc/net file once; "
+            "_common.conn_tmap lists the same kinds). Address decoding, the /proc/net parsers, holder attribution and the "
+            "per-process form are covered by a bounded sweep over generated socket tables on a fake procfs against an "
+            "independent decoding (labelled bounded).",
+    "note": "inet_ntop's text rendering is the library's; which holder an inet socket shared by several fds is attributed "
+            "to is unspecified and not checked.",
+    "ref": "DESIGN.md section 5 (C11)",
+}
+
 NOT_YET = "check not built yet (work in progress, see DESIGN.md section 7)"
 NA = {}
 
